@@ -75,11 +75,16 @@ func (s *WebsocketServer) HandleWebsocket(w http.ResponseWriter, r *http.Request
 	err = session.RunLoop()
 	Log.Info(err)
 
+	// 注意，如果session是上层通过 OnNewRtspPubSession / OnNewRtspSubSessionDescribe 回调的返回值拒绝的，则不再触发对应的Del回调
 	if session.pubSession != nil {
-		s.observer.OnDelRtspPubSession(session.pubSession)
+		if !session.pubSession.DisposeByObserverFlag {
+			s.observer.OnDelRtspPubSession(session.pubSession)
+		}
 		_ = session.pubSession.Dispose()
 	} else if session.subSession != nil {
-		s.observer.OnDelRtspSubSession(session.subSession)
+		if !session.subSession.DisposeByObserverFlag {
+			s.observer.OnDelRtspSubSession(session.subSession)
+		}
 		_ = session.subSession.Dispose()
 	}
 	s.observer.OnDelRtspSession(session)
@@ -98,11 +103,19 @@ func (s *WebsocketServer) Dispose() {
 // ----- ServerCommandSessionObserver ----------------------------------------------------------------------------------
 
 func (s *WebsocketServer) OnNewRtspPubSession(session *PubSession) error {
-	return s.observer.OnNewRtspPubSession(session)
+	err := s.observer.OnNewRtspPubSession(session)
+	if err != nil {
+		session.DisposeByObserverFlag = true
+	}
+	return err
 }
 
 func (s *WebsocketServer) OnNewRtspSubSessionDescribe(session *SubSession) (ok bool, sdp []byte) {
-	return s.observer.OnNewRtspSubSessionDescribe(session)
+	ok, sdp = s.observer.OnNewRtspSubSessionDescribe(session)
+	if !ok {
+		session.DisposeByObserverFlag = true
+	}
+	return
 }
 
 func (s *WebsocketServer) OnNewRtspSubSessionPlay(session *SubSession) error {
